@@ -2,8 +2,10 @@
 # seedtest.sh <ID> [tier]: verify a seeded change delivered in /tmp/seed/<ID>/_seed in its scratch worktree
 # (suite passes with it, demo fails with it / passes without), copy it to /verif/seeded/<ID>/, then apply it to
 # /repo, run the property's check, and undo. Prints one summary line.
-id=$1; tier=${2:-quick}
-wt=/tmp/seed/$id; sd=$wt/_seed
+id=$1; tier=${2:-quick}; round=${3:-}
+# round "" : worktree /tmp/seed/<ID>, kept as /verif/seeded/<ID>; round "2": /tmp/seed2/<ID>, /verif/seeded/<ID>-2
+root=/tmp/seed$round; out=/verif/seeded/$id${round:+-$round}
+wt=$root/$id; sd=$wt/_seed
 export GOFLAGS=-mod=mod GOPROXY=off GOSUMDB=off GOTOOLCHAIN=local
 go() { go1.26.8 "$@"; }
 [ -f $sd/patch.diff ] || { echo "$id: no patch"; exit 2; }
@@ -11,26 +13,34 @@ pkg=$(cat $sd/demo/README.txt 2>/dev/null | grep -o '[a-z0-9_/]*[a-z0-9]' | grep
 demo=$(find $wt -name zz_seed_demo_test.go -not -path "*/_seed/*" | head -1)
 demodir=$(dirname "$demo")
 cd $wt
-# state: patch applied?
-git diff --quiet -- . ':!_seed' 2>/dev/null
+# bring the scratch worktree to /repo's HEAD (later fix commits), keeping the change applied
+head=$(git -C /repo rev-parse HEAD)
+if [ "$(git rev-parse HEAD)" != "$head" ]; then
+  git apply -R $sd/patch.diff && git checkout -q --detach $head && git apply $sd/patch.diff || { echo "$id: cannot move the change to $head"; exit 2; }
+fi
 # (1) with change: suite without demo must pass, demo must fail
-mv "$demo" /tmp/seed/$id.demo.go
+mv "$demo" $root/$id.demo.go
 suite=$(go test -vet=off -count=1 ./... 2>&1 | grep -c "^FAIL\|^--- FAIL")
-mv /tmp/seed/$id.demo.go "$demo"
-go test -vet=off -count=1 -run TestSeedDemo ./${demodir#$wt/} >/tmp/seed/$id.with.log 2>&1; with=$?
+mv $root/$id.demo.go "$demo"
+go test -vet=off -count=1 -run TestSeedDemo ./${demodir#$wt/} >$root/$id.with.log 2>&1; with=$?
 # (2) without change
 git apply -R $sd/patch.diff || { echo "$id: cannot reverse patch"; exit 2; }
-go test -vet=off -count=1 -run TestSeedDemo ./${demodir#$wt/} >/tmp/seed/$id.without.log 2>&1; without=$?
+go test -vet=off -count=1 -run TestSeedDemo ./${demodir#$wt/} >$root/$id.without.log 2>&1; without=$?
 git apply $sd/patch.diff
-mkdir -p /verif/seeded/$id/demo
-cp $sd/patch.diff /verif/seeded/$id/patch.diff; cp "$demo" /verif/seeded/$id/demo/; echo "package directory: ${demodir#$wt/}" > /verif/seeded/$id/demo/README.txt
-# (3) against /repo
+mkdir -p $out/demo
+cp $sd/patch.diff $out/patch.diff; cp "$demo" $out/demo/; echo "package directory: ${demodir#$wt/}" > $out/demo/README.txt
+# (3) the property's check, built against the worktree that holds the change (VERIF_REPO; /repo, the
+# committed evidence and replays are not touched). SEED_INPLACE=1 applies the change to /repo instead.
 cd /verif
-git -C /repo apply /verif/seeded/$id/patch.diff || { echo "$id: patch does not apply to /repo"; exit 2; }
-out=$(./vcheck $id --tier $tier 2>&1); rc=$?
-git -C /repo checkout -- . 
-nviol=$(echo "$out" | grep -c "^VIOLATION")
-first=$(echo "$out" | grep "^violation detail" | head -1 | cut -c1-260)
-rm -f /verif/replays/$id/[0-9a-f]*.json
+if [ -n "$SEED_INPLACE" ]; then
+  git -C /repo apply $out/patch.diff || { echo "$id: patch does not apply to /repo"; exit 2; }
+  res=$(./vcheck $id --tier $tier 2>&1); rc=$?
+  git -C /repo checkout -- .
+  rm -f /verif/replays/$id/[0-9a-f]*.json
+else
+  res=$(VERIF_REPO=$wt ./vcheck $id --tier $tier 2>&1); rc=$?
+fi
+nviol=$(echo "$res" | grep -c "^VIOLATION")
+first=$(echo "$res" | grep "^violation detail" | head -1 | cut -c1-260)
 echo "$id suite_fail_lines=$suite demo_with_rc=$with demo_without_rc=$without check_${tier}_rc=$rc violations=$nviol | $first"
 git -C /repo status --short | head -3
